@@ -125,6 +125,19 @@ def _const_display(n):
     return isinstance(n, (ast.Tuple, ast.List, ast.Set)) and all(isinstance(e, ast.Constant) for e in n.elts)
 
 
+def _const_coll(n, top=True):
+    """a non-empty display all of whose leaves are constants (a lookup table)"""
+    if isinstance(n, ast.Constant):
+        return not top
+    if isinstance(n, (ast.Set, ast.List, ast.Tuple)):
+        return bool(n.elts) and all(_const_coll(e, False) for e in n.elts)
+    if isinstance(n, ast.Dict):
+        return bool(n.keys) and all(isinstance(k, ast.Constant) for k in n.keys) and all(_const_coll(v, False) for v in n.values)
+    if isinstance(n, ast.Call) and isinstance(n.func, ast.Name) and n.func.id in ("frozenset", "set", "tuple") and len(n.args) == 1 and not n.keywords:
+        return _const_coll(n.args[0], top)
+    return False
+
+
 def _const_elts(n):
     while isinstance(n, ast.Call):
         n = n.args[0]
@@ -296,6 +309,8 @@ class _Canon(ast.NodeTransformer):
         node = self.generic_visit(node)
         if isinstance(node.func, ast.Name) and node.func.id == "bool" and len(node.args) == 1 and not node.keywords and _is_boolean(node.args[0]):
             return node.args[0]
+        if isinstance(node.func, ast.Name) and node.func.id == "len" and len(node.args) == 1 and isinstance(node.args[0], ast.Constant) and isinstance(node.args[0].value, (str, bytes)):
+            return ast.Constant(len(node.args[0].value))
         # re.compile(P).search(x) is re.search(P, x)
         f = node.func
         if isinstance(f, ast.Attribute) and f.attr in REGEX_METHODS and isinstance(f.value, ast.Call) and _dotted(f.value.func) == "re.compile" and not f.value.keywords:
@@ -333,6 +348,12 @@ class _Canon(ast.NodeTransformer):
                 return ast.Compare(l if none_r else r, [ast.Is()], [ast.Constant(None)])
             if isinstance(op, (ast.NotEq, ast.IsNot)) and (none_r or none_l):
                 return ast.Compare(l if none_r else r, [ast.IsNot()], [ast.Constant(None)])
+        return node
+
+    def visit_UnaryOp(self, node):
+        node = self.generic_visit(node)
+        if isinstance(node.op, ast.USub) and isinstance(node.operand, ast.Constant) and type(node.operand.value) in (int, float):
+            return ast.Constant(-node.operand.value)
         return node
 
     def visit_IfExp(self, node):
@@ -650,6 +671,9 @@ class _Eval(ast.NodeTransformer):
         return node
 
     def visit_Call(self, node):
+        if isinstance(node.func, ast.Attribute) and node.func.attr in ("get", "keys", "values", "items") and _const_coll(node.func.value):
+            node.args = [self.visit(a) for a in node.args]
+            return node
         node = self.generic_visit(node)
         if _is_loggy_call(node):
             return ast.Constant(None)
@@ -683,8 +707,15 @@ class _Eval(ast.NodeTransformer):
     def visit_Compare(self, node):
         # a display of constants as the right operand of `in` is a membership test, not an object anybody can alias
         node.left = self.visit(node.left)
-        node.comparators = [c if (_const_display(c) and isinstance(op, (ast.In, ast.NotIn))) else self.visit(c) for op, c in zip(node.ops, node.comparators)]
+        node.comparators = [c if ((_const_display(c) or _const_coll(c)) and isinstance(op, (ast.In, ast.NotIn))) else self.visit(c) for op, c in zip(node.ops, node.comparators)]
         return node
+
+    def visit_Subscript(self, node):
+        # indexing a table of constants reads it; nobody can keep a reference to the table itself
+        if _const_coll(node.value) and isinstance(node.ctx, ast.Load):
+            node.slice = self.visit(node.slice)
+            return node
+        return self.generic_visit(node)
 
     def visit_ListComp(self, node):
         # opaque: one fresh object; its element expressions are part of the text
@@ -713,6 +744,7 @@ class Summariser:
             if isinstance(n, (ast.FunctionDef, ast.AsyncFunctionDef)):
                 self.helpers.setdefault(n.name, n)
         self.carried = self._carried_names(func_node) | set(extra_carried)
+        self.tables = self._readonly_tables(func_node)
 
     # -- which locals are loop-carried (cannot be substituted across iterations)
     def _carried_names(self, func):
@@ -761,6 +793,32 @@ class Summariser:
                         visit(h.body)
         visit(func.body)
         return carried
+
+    def _readonly_tables(self, func):
+        """locals bound exactly once to a display of constants and only ever read (membership, iteration, .get, indexing)"""
+        counts, vals = {}, {}
+        for n in ast.walk(func):
+            if isinstance(n, ast.Name) and isinstance(n.ctx, (ast.Store, ast.Del)):
+                counts[n.id] = counts.get(n.id, 0) + 1
+            if isinstance(n, ast.Assign) and len(n.targets) == 1 and isinstance(n.targets[0], ast.Name) and _const_coll(n.value):
+                vals[n.targets[0].id] = n.value
+        cand = {k for k in vals if counts.get(k) == 1}
+        if not cand:
+            return set()
+        parents = {}
+        for n in ast.walk(func):
+            for c in ast.iter_child_nodes(n):
+                parents[id(c)] = n
+        for n in ast.walk(func):
+            if isinstance(n, ast.Name) and n.id in cand and isinstance(n.ctx, ast.Load):
+                par = parents.get(id(n))
+                ok = (isinstance(par, ast.Compare) and len(par.ops) == 1 and isinstance(par.ops[0], (ast.In, ast.NotIn)) and par.comparators[0] is n) or \
+                     (isinstance(par, (ast.For, ast.comprehension)) and par.iter is n) or \
+                     (isinstance(par, ast.Attribute) and par.value is n and par.attr in ("get", "keys", "values", "items") and isinstance(parents.get(id(par)), ast.Call)) or \
+                     (isinstance(par, ast.Subscript) and par.value is n and isinstance(par.ctx, ast.Load))
+                if not ok:
+                    cand.discard(n.id)
+        return cand
 
     # -- entry
     def table(self, start=None):
@@ -863,6 +921,9 @@ class Summariser:
             if len(targets) == 1 and isinstance(targets[0], ast.Name) and isinstance(value, (ast.ListComp, ast.DictComp, ast.SetComp)) and len(value.generators) == 1 \
                     and not value.generators[0].is_async:
                 return self._seq(self._desugar_comp(targets[0].id, value), [p], in_loop)
+            if len(targets) == 1 and isinstance(targets[0], ast.Name) and targets[0].id in self.tables and _const_coll(value):
+                p.env[targets[0].id] = copy.deepcopy(value)
+                return [p]
             outs = None
             if isinstance(value, ast.Call) and not _is_loggy_call(value):
                 outs = self._as_pop(value, p)
@@ -977,7 +1038,8 @@ class Summariser:
                 outs.extend(self._seq(s.orelse, [b], in_loop))
             return outs
         if isinstance(s, (ast.For, ast.AsyncFor)):
-            itn = self._ev(p, s.iter)
+            itn0 = norm_expr(s.iter, p.env)
+            itn = itn0 if _const_coll(itn0) else self._ev(p, s.iter)
             self.nloop += 1
             body_env = dict(p.env)
             tnames = []
@@ -1434,6 +1496,31 @@ def _literals(cond):
     return fixed, rest
 
 
+def _eq_key(atom):
+    """('expr', 'const') for an atom `const == expr` / `expr == const` with a literal constant"""
+    if " == " not in atom:
+        return None
+    a, b = atom.split(" == ", 1)
+    lit = lambda t: t[:1] in "'\"" or t.lstrip("-").replace(".", "", 1).isdigit() or t in ("True", "False", "None")
+    if lit(a) and not lit(b):
+        return b, a
+    if lit(b) and not lit(a):
+        return a, b
+    return None
+
+
+def _exclusive_ok(asg):
+    seen = {}
+    for atom, v in asg.items():
+        if v:
+            k = _eq_key(atom)
+            if k:
+                if seen.get(k[0], k[1]) != k[1]:
+                    return False
+                seen[k[0]] = k[1]
+    return True
+
+
 def _compatible(la, lb, max_free=16):
     """can the two path conditions hold together? -> a witness assignment or None"""
     fa, ra = la
@@ -1443,6 +1530,8 @@ def _compatible(la, lb, max_free=16):
             return None
     fixed = dict(fa)
     fixed.update(fb)
+    if not _exclusive_ok(fixed):
+        return None
     rest = ra + rb
     if not rest:
         return fixed
@@ -1454,7 +1543,7 @@ def _compatible(la, lb, max_free=16):
             _tick()
         asg = dict(fixed)
         asg.update(zip(free, bits))
-        if all(evalf(g, asg) == v for g, v in rest):
+        if all(evalf(g, asg) == v for g, v in rest) and _exclusive_ok(asg):
             return asg
     return None
 
